@@ -166,8 +166,14 @@ def P_C05 (p : Program) (r : Result) : List String :=
     match flowCheck f b.context c05Outcomes c05Fuel with
     | none => []
     | some why =>
-      if f.hasF2 then ["F2:nested-if-in-if-body-reuses-the-enclosing-end-label"]
-      else if f.hasF3 then ["F3:loop-end-label-never-set-after-loop-level-return"]
+      -- instance-level matchers: the disagreement disappears under the F2 reading of the source /
+      -- is a jump to the never-set end label of a loop with a loop-level return
+      if f.hasF2 && (flowCheckF2 f b.context c05Outcomes c05Fuel).isNone then
+        ["F2:nested-if-in-if-body-reuses-the-enclosing-end-label"]
+      else if f.hasF3 && ("jump-to-unset-label".isPrefixOf why ||
+          (f.hasF2 && ((flowCheckF2 f b.context c05Outcomes c05Fuel).map fun w => "jump-to-unset-label".isPrefixOf w) == some true)) &&
+          (unresolvedTargets b.context).all isLoopEndLabel then
+        ["F3:loop-end-label-never-set-after-loop-level-return"]
       else [s!"c05:fn{i}:{why}"]).eraseDups
 
 def isFlowInstr (i : Instr) : Bool := isLabelInstr i || i.isEffect
